@@ -60,6 +60,8 @@ pub use nervusdb_api::{
 };
 pub use nervusdb_query as query;
 pub use nervusdb_storage::PAGE_SIZE;
+#[cfg(nervusdb_verif)]
+pub use nervusdb_storage::verif_hooks;
 pub use nervusdb_storage::backup::{
     BackupHandle, BackupInfo, BackupManager, BackupManifest, BackupStatus,
 };
